@@ -500,7 +500,11 @@ func checkC12(c *vlib.Ctx) (string, string) {
 	}
 	// (length 3 over the full alphabet, 2.7 million histories x 5 middlewares x 90 probes, does not finish within the
 	// thorough tier's internal deadline; the thorough tier therefore deepens the reduced alphabet only)
-	passes := vlib.Pick(c, []pass{{full, 2}, {red, 3}}, []pass{{full, 2}, {red, 4}})
+	var core []string // the three cheapest adversarial operations per middleware, for the deepest pass
+	for mi := 0; mi < c12N; mi++ {
+		core = append(core, fmt.Sprintf("serve:m%d:r2:scribble", mi), fmt.Sprintf("scribble-input:m%d", mi), fmt.Sprintf("config-scribble:m%d", mi))
+	}
+	passes := vlib.Pick(c, []pass{{full, 2}, {red, 3}}, []pass{{full, 2}, {red, 3}, {core, 4}})
 	// Pass 0 is sequential and in simplest-first order: a history that corrupts process-global state (e.g. a
 	// shared singleton slice) is then blamed itself, instead of whichever history happens to run next.
 	w0 := vlib.NewWords(full, 1)
